@@ -399,6 +399,17 @@ pub fn run_check(id: &str, tier_name: &str) -> i32 {
 /// location or the like) for use in violation keys.
 fn abort_site(errtail: &str) -> String {
     for line in errtail.lines() {
+        if let Some(rest) = line.strip_prefix("abort after: panicked at ") {
+            let loc = rest.split(':').next().unwrap_or("").trim_start_matches("/repo/");
+            let what = if rest.contains("unsafe precondition") {
+                "unsafe-precondition"
+            } else {
+                "non-unwinding-panic"
+            };
+            return format!("{}:{}", what, loc);
+        }
+    }
+    for line in errtail.lines() {
         if let Some(pos) = line.find("panicked at ") {
             let rest = &line[pos + 12..];
             let loc = rest.split(':').next().unwrap_or("");
@@ -407,7 +418,8 @@ fn abort_site(errtail: &str) -> String {
     }
     for line in errtail.lines() {
         if line.contains("unsafe precondition") {
-            return "unsafe-precondition".to_string();
+            let what = if errtail.contains("get_unchecked") { ":get_unchecked" } else { "" };
+            return format!("unsafe-precondition{}", what);
         }
         if line.contains("stack overflow") || line.contains("has overflowed its stack") {
             return "stack-overflow".to_string();
